@@ -189,6 +189,9 @@ func (g GenCfg) Gen(r *rand.Rand, depth int) *Node {
 			if nk > 30 {
 				d = r.Intn(2)
 			}
+			if d > depth-1 {
+				d = depth - 1
+			}
 			if d < 0 {
 				d = 0
 			}
